@@ -61,17 +61,7 @@ func c10Errors(c *core.Ctx) {
 			}
 			found++
 			c.Sites++
-			used := false
-			for _, ev := range an.ErrResult(call) {
-				if refs := ev.Referrers(); refs != nil {
-					for _, r := range *refs {
-						if _, isDbg := r.(*ssa.DebugRef); !isDbg {
-							used = true
-						}
-					}
-				}
-			}
-			if !used {
+			if !errReachesReturn(call) {
 				bad++
 				c.Bad("C10.e", "ERR", core.FuncName(fn)+":"+id+":error-dropped", c.P.Pos(call.Pos()),
 					"the error of "+id+" is dropped in "+core.FuncName(fn)+": a snapshot stream that was not written completely, or that carries more data than its header announces, can be installed as if it were the source's data", nil)
